@@ -32,6 +32,8 @@ MUTANTS = [
     {"id": "c08-make-scrlen-orig", "expect": "fire", "edits": [(C, "        chunks_list = cls._merge_chunks(chunks_list)\n        result = cls()\n        result.scrlen = sum(len(c.text) for c in chunks_list)", "        merged = cls._merge_chunks(chunks_list)\n        result = cls()\n        result.scrlen = len(chunks_list)\n        chunks_list = merged")]},
     {"id": "c08-merge-loses-last", "expect": "fire", "edits": [(C, "                cur_chunk = cur_chunk.add_chunks_same_type(chunk)\n        result.append(cur_chunk)\n        return result", "                cur_chunk = cur_chunk.add_chunks_same_type(chunk)\n        return result")]},
     {"id": "c08-getitem-raw-object", "expect": "fire", "edits": [(C, "        if remain_len <= 0:\n            return type(self)()", "        if remain_len <= 0:\n            return \"\"")]},
+    {"id": "c08-add-empty-returns-self", "expect": "fire", "edits": [(C, "        result = type(self)(self)  # clone self\n        result += other\n        return result", "        if isinstance(other, (str, CHText)) and len(other) == 0:\n            return self\n        result = type(self)(self)  # clone self\n        result += other\n        return result")]},
+    {"id": "c08-fixed-len-returns-self", "expect": "fire", "edits": [(C, "        return type(self)(self)  # a copy: the result must not alias self", "        return self")]},
     # neutral
     {"id": "c08-n-tuple-copy", "expect": "silent", "edits": [(C, "            for part in list(other.chunks):", "            for part in tuple(other.chunks):")]},
     {"id": "c08-n-guarded-alias", "expect": "silent", "edits": [(C, "            for part in list(other.chunks):\n                self._append_chunk(part)", "            parts = other.chunks[:]\n            for part in parts:\n                self._append_chunk(part)")]},
